@@ -175,7 +175,7 @@ class FormulaParser(Parser):
             else:
                 p[0] = p[1] + [None]
         elif p[2] == ';':
-            if p[3] == ';':
+            if len(p) == 5:
                 p[0] = p[1] + [None, p[4]]
             else:
                 if str(p.slice[1]) in ('expseqcomma', 'expseqbackslash'):
@@ -203,7 +203,7 @@ class FormulaParser(Parser):
                 p[0] = p[1] + [None]
         elif p[2] == ',':
             # expseqcomma COMMA COMMA expression
-            if p[3] == ',':  # e.g. an empty function argument
+            if len(p) == 5:  # e.g. an empty function argument
                 p[0] = p[1] + [None, p[4]]
             else:
                 p[0] = p[1] + [p[3]]
@@ -227,7 +227,7 @@ class FormulaParser(Parser):
             else:
                 p[0] = p[1] + [None]
         elif p[2] == '\\':
-            if p[3] == '\\':
+            if len(p) == 5:
                 p[0] = p[1] + [None, p[4]]
             else:
                 p[0] = p[1] + [p[3]]
